@@ -178,6 +178,10 @@ def actions(H, W, sym, thorough):
                         out.append(("region", r0, r1, c0, c1, "mixed", rows))
                         rows = tuple((sym * max(0, w - k), ()) for k in range(n))
                         out.append(("region", r0, r1, c0, c1, "fmt", rows))
+                        # every row fits except the LAST one, which reaches past the array edge: nothing of the block may show
+                        rows = tuple([(sym * w, RED)] * (n - 1) + [(sym * (W - c0 + 1), ())])
+                        out.append(("region", r0, r1, c0, c1, "fmt", rows))
+                        out.append(("region", r0, r1, c0, c1, "str", tuple((t, ()) for t, _ in rows)))
                     # wrong number of rows
                     if w > 0:
                         out.append(("region", r0, r1, c0, c1, "fmt", tuple([(sym * w, ())] * (n + 1))))
@@ -414,7 +418,7 @@ def session_tall(args):
 
 
 def session_menu(H, W, sym):
-    out = []
+    out = [("region", H + 1, H + 3, 0, 1, "fmt", ((sym, RED),)), ("region", H, H + 1, 0, W, "fmt", ((sym * W, RED), (sym, RED)))]  # wrong number of rows
     for r0 in range(0, H + 2):
         for n in (0, 1, 2):
             for c0, c1 in ((0, 0), (0, 1), (0, W), (1, 2)):
@@ -433,18 +437,40 @@ def session_same_object(args):
     H0, W = shape
     depth = 3 if tier == "thorough" else 2
 
+    def bottom_reads(a, grid, Hold, case):
+        """The reads around the (old) bottom of the array - the last thing done before an assignment and the first thing after it,
+        so that a bounded read cache still holds them."""
+        ok = True
+        for r0 in sorted({max(0, Hold - 1), Hold}):
+            for r1 in (Hold, Hold + 1, Hold + 2):
+                if r1 < r0:
+                    continue
+                for c0, c1 in ((0, W), (0, 1), (min(1, W), W)):
+                    got = [C.cells(x) for x in a[r0:r1, c0:c1]]
+                    want = [row[c0:c1] for row in grid[r0:r1]]
+                    if [strip(x) for x in got] != [strip(x) for x in want]:
+                        acc.failure("C04:read_region", dict(case, read="a[%d:%d,%d:%d]" % (r0, r1, c0, c1)), "got %d rows %r want %d rows %r" % (len(got), got, len(want), want))
+                        ok = False
+        return ok
+
     def rec(hist):
         a = FSArray(H0, W)
         grid = grid_of(a)
         case0 = {"initial": "FSArray(%d,%d)" % shape, "same_object": True}
         if not check_reads(acc, a, grid, W, dict(case0, history=[])):
             return None
+        bottom_reads(a, grid, len(grid), dict(case0, history=[]))
         for i, act in enumerate(hist):
+            Hold = len(grid)
             grid = step(acc, a, grid, W, act, hist[:i])
             if grid is None:
                 return None
-            if not check_reads(acc, a, grid, W, dict(case0, history=[show_act(h) for h in hist[: i + 1]])):
+            case = dict(case0, history=[show_act(h) for h in hist[: i + 1]])
+            if not bottom_reads(a, grid, Hold, dict(case, reads="around the old bottom, first thing after the assignment")):
                 return None
+            if not check_reads(acc, a, grid, W, case):
+                return None
+            bottom_reads(a, grid, len(grid), case)
         return len(grid)
 
     def walk(hist, H):
@@ -503,6 +529,43 @@ def session_paint(args):
                 if not dead:
                     acc.state(hash(canon(a)))
                     check_reads(acc, a, grid, W, {"session": {"palette_rotation": rot, "texts": texts, "region_width": wid, "stride": stride}, "writes": nwrites}) if W <= 4 else None
+    return acc.export()
+
+
+def session_very_wide(args):
+    """Arrays thousands of columns wide: a block written far to the right of where a row's content ends (the gap is padded), next
+    to the right edge, and over existing content; widths just below / above round numbers and powers of two."""
+    tier, seed, W = args
+    from curtsies.formatstringarray import FSArray
+
+    acc = Acc(seed=seed, sample_stride=97)
+    for H0 in (1, 2):
+        for content_end in (0, 3, W // 2):
+            for c0 in sorted({1, 5, W // 2 + 1, W - 40, W - 4, W - 3, 100, 255, 256, 1023, 1024, 4095, 4096, 8191, 8192, 8193, 8200, 9999, 10000, 16383, 16384, 16385, 65535, 65536, 65540}):
+                if not (0 <= c0 <= W - 3):
+                    continue
+                a = FSArray(H0, W)
+                grid = grid_of(a)
+                if content_end:
+                    grid = step(acc, a, grid, W, ("region", 0, 1, 0, content_end, "fmt", (("o" * content_end, RED),)), [])
+                    if grid is None:
+                        continue
+                for r0 in (0, H0):
+                    act = ("region", r0, r0 + 1, c0, c0 + 3, "fmt", (("xyz", RED),))
+                    case = {"initial": "FSArray(%d,%d), row 0 holds %d characters" % (H0, W, content_end), "action": {"rows": [r0, r0 + 1], "cols": [c0, c0 + 3]}}
+                    acc.case(True, key=("wide", W, H0, content_end, c0, r0), sample=case)
+                    g = step(acc, a, grid, W, act, [])
+                    if g is None:
+                        break
+                    grid = g
+                    now = grid_of(a)
+                    row = now[r0]
+                    if [c for c, _ in row[c0 : c0 + 3]] != ["x", "y", "z"] or len(row) > W:
+                        acc.failure("C04:assignment_result", case, "columns %d..%d of row %d show %r" % (c0, c0 + 3, r0, row[c0 : c0 + 3]))
+                    got = [C.cells(x) for x in a[r0 : r0 + 1, c0 - 1 : c0 + 4]]
+                    want = [grid[r0][c0 - 1 : c0 + 4]]
+                    if [strip(x) for x in got] != [strip(x) for x in want]:
+                        acc.failure("C04:read_region", dict(case, read="a[%d:%d,%d:%d]" % (r0, r0 + 1, c0 - 1, c0 + 4)), "got %r want %r" % (got, want))
     return acc.export()
 
 
@@ -628,6 +691,8 @@ def run(ctx):
     shapes = [(2, 3), (3, 4)] if ctx.thorough else [(2, 3)]
     for d in ctx.pmap(session_same_object, [(ctx.tier, ctx.seed, sh, p, 12) for sh in shapes for p in range(12)]):
         rep.merge(d, "one_object_reads_between_assignments")
+    for d in ctx.pmap(session_very_wide, [(ctx.tier, ctx.seed, W) for W in (300, 1030, 4100, 8200, 10010, 16390, 65550, 70001)]):
+        rep.merge(d, "arrays_thousands_of_columns_wide")
     for d in ctx.pmap(session_paint, [(ctx.tier, ctx.seed, rot) for rot in range(len(PAINT))]):
         rep.merge(d, "one_object_painting_sessions")
     acc = Acc(seed=ctx.seed)
